@@ -305,3 +305,236 @@ def lut_table(ctx, L):
                         return None
                     out.extend([v] * cnt)
     return out if started else None
+
+
+def bam_key_guard(ctx, L, rule="R-PEER-255"):
+    """inbound control frames can never be matched with the stack's own broadcast sessions: those are keyed with 255 in the
+    peer slot, so every effect of _process_tp_cm on the send-session table is dominated by `source address != 255`
+    (or by a test that the matched session is not a broadcast)"""
+    f = L.cm
+    src = ("attr", ("p", "mid"), "source_address")
+    n = 0
+    seen = {}
+    for r in runs(ctx, f):
+        for i, e in r.effects():
+            touched = None
+            if e.kind in ("store", "aug", "del") and root_field(e.target) == "_snd_buffer":
+                touched = e.target
+            if touched is None:
+                continue
+            gl = lits(r.guards(i))
+            ok = False
+            for g, p in gl:
+                if g[0] == "cmp" and g[1] == "==" and not p:
+                    a, b = g[2], g[3]
+                    if {a, b} == {src, ("c", 255)}:
+                        ok = True
+                    # per-session test: matched entry's dest_address != GLOBAL
+                    for x, y in ((a, b), (b, a)):
+                        if y == ("c", 255) and x[0] == "sub" and x[2] == ("c", "dest_address") and root_field(x) == "_snd_buffer":
+                            ok = True
+                if g[0] == "cmp" and g[1] == "<" and p and g[2] == src and is_const(g[3]) and isinstance(g[3][1], int) and g[3][1] <= 255:
+                    ok = True
+            lab = _ctl_label(L, gl)
+            key = "%s %s arm: send-session effect only for a legal peer" % (L.tag, lab)
+            if ok:
+                seen.setdefault(key, None)
+            elif seen.get(key) is None:
+                seen[key] = e.node
+    for key, bad in sorted(seen.items()):
+        if bad is None:
+            ctx.holds(rule, key)
+        else:
+            ctx.violated(rule, f, key, "a control frame from source address 255 addressed to this ECU computes the key of the ECU's own broadcast session "
+                         "(255 is its peer) and this path then modifies / finishes that session: the broadcast is cut short and, on J1939-22, its "
+                         "number is returned to the wrong pool (BAM capacity lost for good)", bad)
+    if not seen:
+        ctx.unknown(rule, "no effect of %s on the send-session table found" % f.qual)
+
+
+def _ctl_label(L, gl):
+    for g, p in gl:
+        if p and g[0] == "cmp" and g[1] == "==" and is_const(g[2]) != is_const(g[3]) and contains(g, ("sub", ("p", "data"), ("c", 0))):
+            v = cval(g[2]) if is_const(g[2]) else cval(g[3])
+            return str(([k for k, c in L.ctl.items() if c == v] or [v])[0])
+    return "?"
+
+
+# --------------------------------------------------------------------------- R-LOOP-PROGRESS
+_PURE = {"len", "int", "min", "max", "abs", "bool", "range", "isinstance", "bytes", "bytearray", "list", "tuple", "hex", "ceil", "floor"}
+_MUTATORS = {"append", "pop", "insert", "extend", "remove", "clear", "popleft", "update", "setdefault", "sort", "reverse", "discard", "add"}
+
+
+def _root(n):
+    """root name of an access path: Name id, or 'self.<attr>' for self attributes"""
+    while isinstance(n, (ast.Subscript, ast.Attribute)):
+        if isinstance(n, ast.Attribute) and isinstance(n.value, ast.Name) and n.value.id == "self":
+            return "self." + n.attr
+        n = n.value
+    return n.id if isinstance(n, ast.Name) else None
+
+
+def _reads(expr):
+    """(names read, impure?) of a condition"""
+    out, impure = set(), False
+    for n in ast.walk(expr):
+        if isinstance(n, ast.Name):
+            out.add(n.id)
+        if isinstance(n, ast.Attribute) and isinstance(n.value, ast.Name) and n.value.id == "self":
+            out.add("self." + n.attr)
+        if isinstance(n, ast.Call):
+            fn = n.func
+            name = fn.id if isinstance(fn, ast.Name) else fn.attr if isinstance(fn, ast.Attribute) else None
+            if name not in _PURE:
+                impure = True
+    out.discard("self")
+    out -= _PURE
+    return out, impure
+
+
+def _writes(node):
+    """names (roots) a statement / expression can modify"""
+    out = set()
+    for n in ast.walk(node):
+        tg = []
+        if isinstance(n, ast.Assign):
+            tg = n.targets
+        elif isinstance(n, (ast.AugAssign, ast.AnnAssign)):
+            tg = [n.target]
+        elif isinstance(n, ast.Delete):
+            tg = n.targets
+        elif isinstance(n, (ast.For, ast.comprehension)):
+            tg = [n.target]
+        elif isinstance(n, ast.NamedExpr):
+            tg = [n.target]
+        elif isinstance(n, ast.withitem) and n.optional_vars is not None:
+            tg = [n.optional_vars]
+        for t in tg:
+            for el in (t.elts if isinstance(t, (ast.Tuple, ast.List)) else [t]):
+                r = _root(el)
+                if r:
+                    out.add(r)
+        if isinstance(n, ast.Call) and isinstance(n.func, ast.Attribute):
+            if n.func.attr in _MUTATORS:
+                r = _root(n.func.value)
+                if r:
+                    out.add(r)
+            if isinstance(n.func.value, ast.Name) and n.func.value.id == "self":
+                out.add("self.*")       # a method of this object may modify any of its fields
+        if isinstance(n, ast.Call):
+            # an unknown callee may modify the objects it is handed (logging and printing do not)
+            fn = n.func
+            name = fn.id if isinstance(fn, ast.Name) else fn.attr if isinstance(fn, ast.Attribute) else None
+            recv = fn.value.id if isinstance(fn, ast.Attribute) and isinstance(fn.value, ast.Name) else None
+            if name not in _PURE and name != "print" and recv not in ("logger", "logging") and name not in ("copy",):
+                for a in list(n.args) + [k.value for k in n.keywords]:
+                    if isinstance(a, (ast.Name, ast.Attribute, ast.Subscript)):
+                        r = _root(a)
+                        if r:
+                            out.add(r)
+    return out
+
+
+def loop_progress(ctx, classes, rule="R-LOOP-PROGRESS"):
+    """every way round a `while` loop changes something its exit tests read (loops whose exit depends on a clock, queue
+    or other external call are exempt): otherwise one frame / one expiry makes the thread spin forever"""
+    from sa.paths import Enumerator
+    P = ctx.prog
+    n = 0
+    for cname in classes:
+        c = P.cls(cname)
+        for fn in sorted(c.methods.values(), key=lambda f: f.node.lineno):
+            loops = [x for x in ast.walk(fn.node) if isinstance(x, ast.While)]
+            for k, lp in enumerate(sorted(loops, key=lambda x: x.lineno)):
+                n += 1
+                inst = "%s.%s while-loop #%d [%s]" % (cname, fn.name, k, ast.unparse(lp.test)[:50])
+                exit_tests = [lp.test]
+                for x in ast.walk(lp):
+                    # every branch test inside the loop can decide whether the round ends in break / return or comes round again
+                    if isinstance(x, (ast.If, ast.IfExp)) or (isinstance(x, ast.While) and x is not lp):
+                        exit_tests.append(x.test)
+                reads, impure = set(), False
+                for t in exit_tests:
+                    r_, i_ = _reads(t)
+                    reads |= r_
+                    impure |= i_
+                if impure:
+                    ctx.holds(rule, inst, "exempt: an exit test calls into external state (clock / queue / event)")
+                    continue
+                # values the exit tests depend on indirectly: locals assigned in the loop from other names (one step is enough here)
+                changed = True
+                while changed:
+                    changed = False
+                    for x in ast.walk(lp):
+                        if isinstance(x, ast.Assign) and any(_root(t) in reads for t in x.targets):
+                            r_, i_ = _reads(x.value)
+                            if i_:
+                                impure = True
+                            if not r_ <= reads:
+                                reads |= r_
+                                changed = True
+                if impure:
+                    ctx.holds(rule, inst, "exempt: an exit test depends on a value read from external state")
+                    continue
+                try:
+                    paths = Enumerator(unroll=1, summarize_pad=False, prog=None, cls=None, inline=False).block(lp.body)
+                except AnalysisError as ex:
+                    ctx.unknown(rule, "%s: %s" % (inst, ex))
+                    continue
+                bad = None
+                for p in paths:
+                    if p.term not in ("fall", "continue"):
+                        continue
+                    # dep[x] = round-entry values the current value of x is computed from ('!' = an external call); a name is
+                    # CHANGED by the round if it is (re)computed from its own entry value, from an external call, or from a changed
+                    # name; containers written in place, augmented assignments and deletions always count as changed
+                    dep, hard = {}, set()
+
+                    def deps_of(expr):
+                        r_, i_ = _reads(expr)
+                        out = {"!"} if i_ else set()
+                        for nm in r_:
+                            out |= dep.get(nm, {nm})
+                        return out
+                    for ev in p.events:
+                        nd = ev.node
+                        if not isinstance(nd, ast.AST):
+                            continue
+                        if ev.kind == "for" and isinstance(nd, ast.For):
+                            r = _root(nd.target)
+                            if r:
+                                hard.add(r)
+                            continue
+                        if ev.kind not in ("stmt", "cond"):
+                            continue
+                        if isinstance(nd, ast.Assign) and all(isinstance(t, ast.Name) for t in nd.targets):
+                            d_ = deps_of(nd.value)
+                            for t in nd.targets:
+                                dep[t.id] = d_
+                            hard |= _writes(nd.value)
+                            continue
+                        hard |= _writes(nd)
+                    w = set(hard)
+                    grew = True
+                    while grew:
+                        grew = False
+                        for x, d_ in dep.items():
+                            if x in w:
+                                continue
+                            if x in d_ or "!" in d_ or (d_ & w) or ("self.*" in w and any(y.startswith("self.") for y in d_)):
+                                w.add(x)
+                                grew = True
+                    # loop variables that only feed themselves back (x = f(x)) count, constants do not matter here
+                    prog_ = (w & reads) or ("self.*" in w and any(r.startswith("self.") for r in reads))
+                    if not prog_:
+                        last = [ev.node for ev in p.events if isinstance(ev.node, ast.AST) and hasattr(ev.node, "lineno")]
+                        bad = (last[-1] if last else lp, p.term)
+                        break
+                if bad:
+                    ctx.violated(rule, fn, inst, "one way round the loop (ending in %s at line %d) changes none of %s, which is all the exit tests read: "
+                                 "once taken, the loop never ends and the calling thread spins forever" % (
+                                     "`continue`" if bad[1] == "continue" else "the end of the body", bad[0].lineno, sorted(reads)[:6]), bad[0])
+                else:
+                    ctx.holds(rule, inst)
+    if n == 0:
+        ctx.unknown(rule, "no while loops found in %s" % (classes,))
